@@ -103,6 +103,9 @@ func AcquireW(l *LockState) {
 			}
 		}
 	}
+	// A task can be preempted inside its critical section too: this is the
+	// point at which other tasks get to find the lock held.
+	point(site, true)
 }
 
 // TryAcquireW is the TryLock variant; it reports whether the lock was granted.
@@ -184,6 +187,7 @@ func AcquireR(l *LockState) {
 	t.held++
 	t.waitOn = nil
 	syncEvent(l, evRLock)
+	point(t.last, true)
 }
 
 //go:norace
